@@ -4,6 +4,7 @@ import (
 	"context"
 	"errors"
 	"fmt"
+	"math/rand"
 	"os"
 	"os/exec"
 	"path/filepath"
@@ -31,6 +32,7 @@ type c20Case struct {
 	Gens     int      `json:"generations"`
 	SolvedAt []int    `json:"solved_at"` // per trial: generation reported solved or -1
 	Observer bool     `json:"observer"`
+	Long     bool     `json:"long,omitempty"`
 	Parallel bool     `json:"parallel"`
 	Fault    c20Fault `json:"fault"`
 	// Prealloc: 0 - Experiment.Trials is nil (fresh experiment); 1 - the caller allocated exactly NumRuns entries; 2 - the experiment
@@ -103,6 +105,49 @@ func c20Enumerate(tier string) []c20Case {
 				}
 			}
 		}
+	}
+	// long runs beyond the enumerated bounds: 5-40 trials of up to 5-35 generations, PRNG-chosen solved patterns (a fixed list, the
+	// same at every seed), fault-free and with one fault at a PRNG-chosen position
+	nLong := 48
+	if tier == "thorough" {
+		nLong = 400
+	}
+	lr := rand.New(rand.NewSource(2020))
+	for i := 0; i < nLong; i++ {
+		R, G := 5+lr.Intn(36), 5+lr.Intn(31)
+		solved := make([]int, R)
+		for k := range solved {
+			solved[k] = -1
+			if lr.Intn(3) != 0 {
+				solved[k] = lr.Intn(G)
+			}
+		}
+		cs := c20Case{Runs: R, Gens: G, SolvedAt: solved, Observer: lr.Intn(4) != 0, Parallel: lr.Intn(4) == 0, Fault: c20Fault{Kind: "none"}, Long: true}
+		if i%2 == 1 {
+			r := lr.Intn(R)
+			last := G - 1
+			if solved[r] >= 0 {
+				last = solved[r]
+			}
+			g := lr.Intn(last + 1)
+			kinds := []string{"eval_error", "cancel_in_eval", "eval_error_deadline"}
+			if g != solved[r] {
+				kinds = append(kinds, "cancel_mid_epoch")
+			} else {
+				kinds = append(kinds, "eval_error_solved")
+			}
+			if cs.Observer {
+				kinds = append(kinds, "cancel_in_epoch_evaluated", "cancel_in_trial_started", "cancel_in_trial_finished")
+			}
+			cs.Fault = c20Fault{kinds[lr.Intn(len(kinds))], r, g}
+			if cs.Fault.Kind == "eval_error_deadline" {
+				cs.Parallel = false
+			}
+			if cs.Fault.Kind == "cancel_in_trial_started" || cs.Fault.Kind == "cancel_in_trial_finished" {
+				cs.Fault.G = 0
+			}
+		}
+		cases = append(cases, cs)
 	}
 	// the shipped experiment runner (the executable of the repository root) with and without the -trials override
 	nRunner := 6
@@ -230,7 +275,7 @@ func init() {
 		Run:         runC20,
 		Exhaustive:  true,
 		Required: []string{"cases.none", "cases.eval_error", "cases.cancel_in_eval", "cases.cancel_in_epoch_evaluated", "cases.cancel_in_trial_started",
-			"cases.cancel_in_trial_finished", "cases.cancel_mid_epoch", "cases.parallel", "cases.no_observer", "cases.runner", "runner.stopped_after_interrupt", "cases.eval_error_solved", "cases.eval_error_deadline", "cases.trials_preallocated", "cases.experiment_reused_after_longer_run", "observer.is_the_evaluator", "observer.second_object", "observer.stateless_value", "observer.value_with_field", "evaluator.value_typed", "trials.solved", "trials.unsolved", "canceled.returned"},
+			"cases.cancel_in_trial_finished", "cases.cancel_mid_epoch", "cases.parallel", "cases.no_observer", "cases.runner", "runner.stopped_after_interrupt", "cases.eval_error_solved", "cases.eval_error_deadline", "cases.long_runs_of_5_to_40_trials", "cases.trials_preallocated", "cases.experiment_reused_after_longer_run", "observer.is_the_evaluator", "observer.second_object", "observer.stateless_value", "observer.value_with_field", "evaluator.value_typed", "trials.solved", "trials.unsolved", "canceled.returned"},
 	})
 }
 
@@ -451,6 +496,9 @@ func runC20(c *Ctx, idx int) {
 	}
 	if cs.Parallel {
 		c.Count("cases.parallel", 1)
+	}
+	if cs.Long {
+		c.Count("cases.long_runs_of_5_to_40_trials", 1)
 	}
 	if !cs.Observer {
 		c.Count("cases.no_observer", 1)
